@@ -53,3 +53,70 @@ void h_connectDo(void)
   }
   IORA_CANARY("h_connectDo: returns");
 }
+
+/* ============================ viaDo (connect-via-listener), WHOLE function ============================
+ * C02: every early exit (listener not found, listener family unsupported, resolution failed, no address of the listener's family, session cap) fires exactly
+ * one close notification for the id connectViaListener() already returned, and inserts nothing.  C06: the success path (also under contract as `via_tail`
+ * in unit udp_recv) creates the session for the resolved peer and indexes it only if the peer has no receiving session yet.  Unbounded address list. */
+#define INV_IDX_V(E) ( (!((E)._peerIndex.has && (E)._peerIndex.val == GSID) || ((E)._sessions.has && (E)._sessions.val != NULL && (E)._sessions.val->pkey == GPK \
+                          && !(E)._sessions.val->closed && (E)._sessions.val->role == Role_ServerPeer)) \
+                    && (!(E)._sessions.has || ((E)._sessions.val != NULL && (E)._sessions.val->id == GSID && GSID < (E)._nextSessionId)) \
+                    && (!(E)._peerIndex.has || (E)._peerIndex.val < (E)._nextSessionId) )
+void h_viaDo(void)
+{
+  IORA_TRUE = 1; G = (struct iora_udp_ghost){0}; memset(&GC, 0, sizeof(GC));
+  GPK = nondet_u64(); GSID = nondet_u64(); GFD = nondet_int(); GLID = nondet_u64(); GB = nondet_size_t(); GK = nondet_size_t();
+  __CPROVER_assume(GB < sizeof(sockaddr_storage));
+  UdpEngine E; Session WS, OS; Listener L, OL; ViaReq VR;
+  E._sessions.val = &WS; E._sessions.other = &OS; E._listeners.val = &L; E._listeners.other = &OL;
+  E._peerIndex.has = nondet_bool(); E._sessions.has = nondet_bool(); E._tags.has = nondet_bool(); E._listeners.has = nondet_bool(); E._cbMutex.held = 0; E._sessionRwMutex.held = 0;
+  E._cbs.onAccept.set = nondet_bool(); E._cbs.onConnect.set = nondet_bool(); E._cbs.onData.set = nondet_bool(); E._cbs.onClose.set = nondet_bool(); E._cbs.onError.set = nondet_bool();
+  WS.closed = nondet_bool(); L.wantWrite = nondet_bool(); OL.wantWrite = nondet_bool();
+  __CPROVER_assume(INV_IDX_V(E) && E._atomicStats.sessionsCurrent < (size_t)-1);
+  __CPROVER_assume(VR.sid < E._nextSessionId && !(VR.sid == GSID && E._sessions.has) && !(E._peerIndex.has && E._peerIndex.val == VR.sid));     /* id issued by connectViaListener, not in the table */
+  const bool has0 = E._peerIndex.has; const SessionId val0 = E._peerIndex.val; const bool shas0 = E._sessions.has; Session *const sval0 = E._sessions.val;
+  const size_t cur0 = E._atomicStats.sessionsCurrent; const bool cset = E._cbs.onConnect.set, xset = E._cbs.onClose.set; const SessionId next0 = E._nextSessionId;
+  const bool lst_known_absent = (VR.lid == GLID && !E._listeners.has);
+  Listener *const lst = (VR.lid == GLID) ? &L : &OL;
+
+  bool ok = UdpEngine_viaDo(&E, &VR);
+
+  __CPROVER_assert(IORA_NO_LOCK_HELD(&E), "L1 no lock left held");
+  __CPROVER_assert(!GC.list_live && GC.gai_calls <= 1 && GC.free_calls <= GC.gai_calls, "E1 the resolver result is freed on every path that obtained one");
+  __CPROVER_assert(!lst_known_absent || (!ok && GC.gai_calls == 0 && (!xset || G_closeCb_why == TransportError_Config)), "VH1 unknown listener: refused before anything is resolved, reason Config");
+  if (!ok) {
+    IORA_CANARY("h_viaDo: early exit");
+    __CPROVER_assert(G_closeCb_calls == (xset ? 1u : 0u), "VH2 every early exit fires exactly one close notification");
+    __CPROVER_assert(!xset || (G_closeCb_sid == VR.sid && !G_closeCb_locked && (G_closeCb_why == TransportError_Config || G_closeCb_why == TransportError_Resolve)), "VH3 for the id the caller holds, reason Config or Resolve, no lock held");
+    __CPROVER_assert(!xset || (G_closeCb_why == TransportError_Resolve) == (GC.gai_calls == 1 && GC.free_calls == 0), "VH4 Resolve iff the resolver was asked and gave no list");
+    __CPROVER_assert(E._sessions.has == shas0 && E._sessions.val == sval0 && E._peerIndex.has == has0 && E._peerIndex.val == val0 && E._atomicStats.sessionsCurrent == cur0 && E._nextSessionId == next0,
+                     "VH5 and inserts nothing: session table, peer index, gauge unchanged");
+    __CPROVER_assert(G.rx.connectCb_calls == 0, "VH6 no connect event");
+    if (GC.gai_calls == 0) { IORA_CANARY("h_viaDo: refused before resolution"); }
+    else if (GC.free_calls == 0) { IORA_CANARY("h_viaDo: resolution failed"); }
+    else if (G.rc.key_calls == 0) { IORA_CANARY("h_viaDo: no address of the listener's family"); }
+    else { IORA_CANARY("h_viaDo: session cap"); }
+  } else {
+    IORA_CANARY("h_viaDo: session created");
+    const bool hit = (G.rc.key == GPK);
+    __CPROVER_assert(G_closeCb_calls == 0 && GC.gai_calls == 1 && GC.free_calls == 1, "V2a success: no close; the address list was obtained and freed once");
+    __CPROVER_assert(G.rx.connectCb_calls == (cset ? 1u : 0u) && (!cset || (G.rx.connectCb_sid == VR.sid && !G.rx.connectCb_locked)), "V2b exactly one connect event for the id");
+    __CPROVER_assert(E._atomicStats.sessionsCurrent == cur0 + 1, "V2c gauge +1");
+    __CPROVER_assert(GC.af == AF_INET || GC.af == AF_INET6, "VH7 a via session is only created on a listener socket whose family is known (IPv4 or IPv6)");
+    if (GSID == VR.sid) {
+      IORA_CANARY("h_viaDo: witness session created");
+      __CPROVER_assert(E._sessions.has && E._sessions.val != NULL, "V2d the session is in the table");
+      Session *ns = E._sessions.val;
+      __CPROVER_assert(ns->id == VR.sid && ns->role == Role_ServerPeer && !ns->closed && ns->pkey == G.rc.key && ns->owner == lst->id && ns->fd == lst->fd, "V2e listener-side, open, keyed by the resolved peer, owned by the listener");
+      __CPROVER_assert((ns->plen == sizeof(sockaddr_in) || ns->plen == sizeof(sockaddr_in6)) && (!(GB < ns->plen) || ns->peer.b[GB] == G_ai_addr.b[GB]), "V2f its datagrams will be addressed to the chosen resolver address (length by family, every byte GB)");
+      __CPROVER_assert(ns->plen == (GC.af == AF_INET6 ? sizeof(sockaddr_in6) : sizeof(sockaddr_in)), "V2h an address of the LISTENER's family was chosen (a datagram socket cannot send to the other family)");
+    } else {
+      __CPROVER_assert(E._sessions.has == shas0 && E._sessions.val == sval0, "V2g no other table entry is touched");
+    }
+    if (hit && !has0) __CPROVER_assert(E._peerIndex.has && E._peerIndex.val == VR.sid, "V3a a peer without an index entry is indexed to the new session");
+    if (hit && has0)  __CPROVER_assert(E._peerIndex.has && E._peerIndex.val == val0, "V3b a peer that already has a receiving session keeps it (no redirect)");
+    if (!hit)         __CPROVER_assert(E._peerIndex.has == has0 && E._peerIndex.val == val0, "V3c other peers' entries are untouched");
+  }
+  __CPROVER_assert(INV_IDX_V(E), "I1 the engine invariant INV is re-established");
+  IORA_CANARY("h_viaDo: returns");
+}
